@@ -280,8 +280,8 @@ def oracle(script, out, segs=None):
                     return (i, "lastValid was written although the motion is valid (lv=%s lvs=%s)" % (kv["lv"], kv["lvs"])), stats
             elif n == 0:
                 # zero-length motion, end state invalid: one point, so the last valid fraction is 0 and the state is
-                # interpolate(s1,s2,0) = s1.  The as-coded former value (double)(0-1)/(double)0 = -inf is the narrow
-                # record F124 (exactly that bit pattern; any other wrong value is a violation).
+                # interpolate(s1,s2,0) = s1.  The former as-coded value (double)(0-1)/(double)0 = -inf is reported under its own
+                # narrow record (F124, fixed in /repo e0f5863f3: nothing suppresses it any more); any other wrong value fails too.
                 stats["n0_invalid"] += 1
                 if kv["lv"] == "untouched":
                     return (i, "motion invalid (s1 == s2, end state invalid) but lastValid.second was not written"), stats
